@@ -94,20 +94,30 @@ def _generic(n, roots, node_level=True):
 
 
 def _type(t, full=True):
+    """full=False: the type is written as a bare reference (GIRWriter._write_type_ref, alias targets):
+    only a name and a c:type can be carried, no element types / array details."""
     if t is None:
         return None
     ctype = (t.complete_ctype or t.ctype) if t.ctype else (t.complete_ctype if full else None)
+    if not full:
+        if isinstance(t, ast.Array):
+            name = t.array_type if t.array_type != ast.Array.C else None
+        elif isinstance(t, ast.List):
+            name = t.name or None
+        elif isinstance(t, ast.Map):
+            name = 'GLib.HashTable'
+        else:
+            name = t.target_giname or t.target_fundamental or None
+        return ('ref', name, ctype)
     if isinstance(t, ast.Varargs):
         return ('varargs',)
     if isinstance(t, ast.Array):
-        d = ('array', t.array_type, ctype, _type(t.element_type, full))
-        if full:
-            d += (bool(t.zeroterminated), _s(t.size), t.length_param_name)
-        return d
+        return ('array', t.array_type, ctype, _type(t.element_type), bool(t.zeroterminated), _s(t.size),
+                t.length_param_name)
     if isinstance(t, ast.List):
-        return ('list', t.name, ctype, _type(t.element_type, full))
+        return ('list', t.name, ctype, _type(t.element_type))
     if isinstance(t, ast.Map):
-        return ('map', ctype, _type(t.key_type, full), _type(t.value_type, full))
+        return ('map', ctype, _type(t.key_type), _type(t.value_type))
     if isinstance(t, ast.TypeUnknown):
         return ('unknown',)
     if t.target_giname:
@@ -116,6 +126,8 @@ def _type(t, full=True):
         return ('fundamental', t.target_fundamental, ctype)
     if t.target_foreign:
         return ('foreign', ctype)
+    if ctype is None:
+        return ('unknown',)            # only a GType name (scanner-internal) is known: written as <type/>
     return ('unresolved', ctype)
 
 
